@@ -467,7 +467,7 @@ async fn run(scn: Value) -> Value {
                 mockpg::log_event(&log, json!({"who": "harness", "ev": "config_deleted", "ok": ok}));
             }
             "reload_state" => {
-                let s = vh::reloadobs::observe();
+                let s = vh::reloadobs::observe_full(step.get("full").and_then(|x| x.as_bool()).unwrap_or(false));
                 mockpg::log_event(&log, json!({"who": "harness", "ev": "reload_state", "label": step["label"], "state": s}));
             }
             "wait_tasks" => {
